@@ -136,8 +136,13 @@ def run_function(prog: Program, resolver: Resolver, qual: str, layers: Tuple[str
     while plans:
         plan = plans.pop()
         it.choice_plan, it.choice_log, it.choice_notes, it.active_ren, it.active_trivial = plan, [], [], {}, []
+        n_ev = len(it.events)
         res = it.run(qual, args)
         done += 1
+        for ev_ in it.events[n_ev:]:
+            ev_.plan = done
+        for o in res:
+            o.plan = done
         if done > 48:
             raise AnalysisError(f"{qual}: more than 48 combinations of helper outcomes")
         extra = [(f"<{t}: {' & '.join(('' if v else 'not ') + c for c, v in p) or 'arm'}>", True) for t, p in it.choice_notes]
